@@ -488,7 +488,8 @@ func (a *Analysis) SubsModel() map[string]byte {
 // Subscriptions checks convergence of the broker table and the resubscribe rules.
 func (a *Analysis) Subscriptions() (out []Finding, resubs int) {
 	r := a.R
-	if r.Quiescent {
+	// (in a certified-stuck or live-locked run nothing will change any more: the table as it stands is final)
+	if r.Quiescent || r.Stuck || r.Livelock {
 		want := a.SubsModel()
 		got := r.FinalSubs
 		var diff []string
@@ -512,7 +513,7 @@ func (a *Analysis) Subscriptions() (out []Finding, resubs int) {
 			} else if strings.Contains(diff[0], "has QoS") {
 				kind = "qos"
 			}
-			out = append(out, Finding{"subscription-table:" + kind, fmt.Sprintf("broker-side subscriptions at quiescence differ from the net effect of the application's calls: %s (session=%s always=%v)", strings.Join(diff, "; "), r.Sc.Cfg.Session, r.Sc.AlwaysResub)})
+			out = append(out, Finding{"subscription-table:" + kind, fmt.Sprintf("broker-side subscriptions at quiescence differ from the net effect of the application's calls: %s (session=%s always=%v quiescent=%v stuck=%v livelock=%v)", strings.Join(diff, "; "), r.Sc.Cfg.Session, r.Sc.AlwaysResub, r.Quiescent, r.Stuck, r.Livelock)})
 		}
 	}
 	// per connection: SUBSCRIBE packets that cannot be application requests
